@@ -586,6 +586,29 @@ impl World
                     Applied::UserAction(format!("remove rule {}", ri))
                 }
             }
+            Op::OrphanRule { rule } =>
+            {
+                let with_deps: Vec<usize> = (0..nrules).filter(|i| !self.model.dependents_of_rule(*i).is_empty()).collect();
+                if with_deps.is_empty() || nrules < 2
+                {
+                    Applied::Noop
+                }
+                else
+                {
+                    let ri = with_deps[gen::pick(*rule, with_deps.len())];
+                    let gone = self.model.rules.remove(ri);
+                    // whatever sits at its target paths now is an ordinary file of the user (or is missing)
+                    for t in gone.targets.iter()
+                    {
+                        match self.sys.h_read(t)
+                        {
+                            Some(c) => { self.model.files.insert(t.clone(), c); }
+                            None => { self.model.files.remove(t); }
+                        }
+                    }
+                    Applied::UserAction(format!("remove rule {:?}; its targets become plain sources", gone.targets))
+                }
+            }
             Op::Reformat { seed, bundle } =>
             {
                 self.model.render.perm_seed = *seed as u64;
